@@ -1,0 +1,47 @@
+//go:build verif
+
+package mcap
+
+import "math"
+
+// Lemma harnesses for /verif/govc: ordinary Go functions, never called and compiled only under the build tag
+// "verif". Each exercises real functions of this package on arbitrary arguments; its contract (in
+// verif_contracts.go) states a fact about more than one call.
+
+// messagesDefaults are the options Reader.Messages starts from.
+func verifMessagesDefaults() ReadOptions {
+	return ReadOptions{StartNanos: 0, EndNanos: math.MaxUint64, UseIndex: true, Order: FileOrder}
+}
+
+// After(s) must mean AfterNanos(uint64(s)) for s >= 0 (C04: every way to express a window means the same window).
+func verifLemmaAfter(s int64) (a, b ReadOptions, ea, eb error) {
+	a = verifMessagesDefaults()
+	b = verifMessagesDefaults()
+	ea = After(s)(&a)
+	a.Finalize()
+	eb = AfterNanos(uint64(s))(&b)
+	b.Finalize()
+	return
+}
+
+// Before(e) must mean BeforeNanos(uint64(e)) for e >= 0.
+func verifLemmaBefore(e int64) (a, b ReadOptions, ea, eb error) {
+	a = verifMessagesDefaults()
+	b = verifMessagesDefaults()
+	ea = Before(e)(&a)
+	a.Finalize()
+	eb = BeforeNanos(uint64(e))(&b)
+	b.Finalize()
+	return
+}
+
+// The nanosecond options applied in either order give the same window when start <= end.
+func verifLemmaOrder(s, e uint64) (a, b ReadOptions, ea1, ea2, eb1, eb2 error) {
+	a = verifMessagesDefaults()
+	b = verifMessagesDefaults()
+	ea1 = AfterNanos(s)(&a)
+	ea2 = BeforeNanos(e)(&a)
+	eb1 = BeforeNanos(e)(&b)
+	eb2 = AfterNanos(s)(&b)
+	return
+}
